@@ -273,4 +273,118 @@ theorem chain_wf (sources : List (TView ν)) (k : Nat) (first : TView ν) (rest 
       have hset : (idx.set k i').set k 0 = idx.set k 0 := by simp
       rw [hset]
 
+/-! ### `TensorIndex` -/
+
+theorem zip_map_eq {α β : Type} (l : List α) (f : α → β) :
+    l.zip (l.map f) = l.map fun a => (a, f a) := by
+  induction l with
+  | nil => simp
+  | cons a as ih => simp [ih]
+
+/-- merging the provided with the supplied indexes: with one supplied index per unprovided
+    dimension the merge succeeds, and it is inside the source exactly when the supplied part is
+    inside the view (the provided indexes are valid by construction) -/
+theorem selectIndexes_spec (zs : List ((ν × Nat) × Option Nat))
+    (hvalid : ∀ z ∈ zs, ∀ p, z.2 = some p → p < z.1.2) (idx : List Nat)
+    (hlen : idx.length = (zs.filterMap fun z => if z.2.isNone then some z.1 else none).length) :
+    ∃ merged, selectIndexes (zs.map (·.2)) idx = some merged ∧ merged.length = zs.length ∧
+      inBounds (zs.map (·.1.2)) merged =
+        inBounds ((zs.filterMap fun z => if z.2.isNone then some z.1 else none).map (·.2)) idx := by
+  induction zs generalizing idx with
+  | nil =>
+    cases idx with
+    | nil => exact ⟨[], rfl, rfl, rfl⟩
+    | cons _ _ => simp at hlen
+  | cons z zs ih =>
+    obtain ⟨d, p⟩ := z
+    have hvalid' : ∀ z ∈ zs, ∀ p, z.2 = some p → p < z.1.2 :=
+      fun z hz => hvalid z (by simp [hz])
+    cases p with
+    | some x =>
+      have hx : x < d.2 := hvalid (d, some x) (by simp) x rfl
+      obtain ⟨merged, h1, h2, h3⟩ := ih hvalid' idx (by simpa using hlen)
+      refine ⟨x :: merged, by simp [selectIndexes, h1], by simp [h2], ?_⟩
+      simp [inBounds, hx, h3]
+    | none =>
+      cases idx with
+      | nil => simp at hlen
+      | cons i is =>
+        obtain ⟨merged, h1, h2, h3⟩ := ih hvalid' is (by simpa using hlen)
+        refine ⟨i :: merged, by simp [selectIndexes, h1], by simp [h2], ?_⟩
+        simp [inBounds, h3]
+
+theorem filterMap_sub {α : Type} (l : List α) (q : α → Bool) :
+    ∀ x ∈ (l.filterMap fun a => if q a then some a else none), x ∈ l := by
+  intro x hx
+  simp only [List.mem_filterMap] at hx
+  obtain ⟨a, ha, hq⟩ := hx
+  split at hq
+  · simp at hq; subst hq; exact ha
+  · simp at hq
+
+theorem filterMap_names_nodup (l : Shape ν) (q : ν × Nat → Bool) (h : (l.map (·.1)).Nodup) :
+    ((l.filterMap fun a => if q a then some a else none).map (·.1)).Nodup := by
+  induction l with
+  | nil => simp
+  | cons a as ih =>
+    simp only [List.map_cons, List.nodup_cons] at h
+    by_cases hq : q a = true
+    · simp only [List.filterMap_cons, hq, if_true, List.map_cons, List.nodup_cons]
+      refine ⟨?_, ih h.2⟩
+      intro hmem
+      simp only [List.mem_map] at hmem
+      obtain ⟨b, hb, hba⟩ := hmem
+      exact h.1 (by simp only [List.mem_map]; exact ⟨b, filterMap_sub as q b hb, hba⟩)
+    · simp only [List.filterMap_cons, hq]
+      exact ih h.2
+
+/-- A `TensorIndex` over a total source with valid provided indexes (each names a dimension of
+    the source and is below its length) is total; its `unwrap` cannot fail. -/
+theorem index_wf (src : TView ν) (hsrc : src.WF) (provided : List (ν × Nat))
+    (hvalid : ∀ d ∈ src.shape, ∀ p ∈ provided, p.1 = d.1 → p.2 < d.2) :
+    (src.index provided).WF := by
+  let f : ν × Nat → Option Nat := fun d => (provided.find? (·.1 = d.1)).map (·.2)
+  let zs : List ((ν × Nat) × Option Nat) := src.shape.map fun d => (d, f d)
+  have hzip : src.shape.zip (providedTable src.shape provided) = zs := by
+    simp only [providedTable]; exact zip_map_eq src.shape f
+  have htable : providedTable src.shape provided = zs.map (·.2) := by
+    simp [zs, providedTable, f]
+  have hlens : src.shape.map (·.2) = zs.map (·.1.2) := by simp [zs]
+  have hzvalid : ∀ z ∈ zs, ∀ p, z.2 = some p → p < z.1.2 := by
+    intro z hz p hp
+    simp only [zs, List.mem_map] at hz
+    obtain ⟨d, hd, rfl⟩ := hz
+    simp only [f, Option.map_eq_some_iff] at hp
+    obtain ⟨q, hq, rfl⟩ := hp
+    have hmem := List.mem_of_find?_eq_some hq
+    have hname := List.find?_some hq
+    exact hvalid d hd q hmem (by simpa using hname)
+  have hshape : (src.index provided).shape =
+      zs.filterMap fun z => if z.2.isNone then some z.1 else none := by
+    simp only [TView.index, hzip]
+  refine ⟨⟨?_, ?_⟩, ?_⟩
+  · rw [hshape]
+    have : (zs.filterMap fun z => if z.2.isNone then some z.1 else none) =
+        src.shape.filterMap fun d => if (f d).isNone then some d else none := by
+      simp only [zs, List.filterMap_map]
+      rfl
+    rw [this]
+    exact filterMap_names_nodup src.shape (fun d => (f d).isNone) hsrc.1.1
+  · intro d hd
+    rw [hshape] at hd
+    simp only [List.mem_filterMap] at hd
+    obtain ⟨z, hz, hzd⟩ := hd
+    split at hzd
+    · simp at hzd; subst hzd
+      simp only [zs, List.mem_map] at hz
+      obtain ⟨d', hd', rfl⟩ := hz
+      exact hsrc.1.2 d' hd'
+    · simp at hzd
+  · intro idx hidx
+    rw [hshape] at hidx ⊢
+    obtain ⟨merged, h1, h2, h3⟩ := selectIndexes_spec zs hzvalid idx hidx
+    simp only [TView.index, htable, h1, unwrapC]
+    obtain ⟨r, hr, hsome⟩ := hsrc.2 merged (by simp [h2, zs])
+    exact ⟨r, hr, by rw [hsome, hlens, h3]⟩
+
 end EasyMl.Fallible
